@@ -272,15 +272,27 @@ pub struct Judged {
 }
 
 /// Judge the observations of one scenario.
-pub fn judge(sc: &Scenario, obs: &[(u32, Obs)]) -> Judged {
+/// `cold[i]`: what a FRESH handle (same configuration) returns for the world of validate step i at
+/// the same virtual time - the differential side of the oracle (empty / None: not compared).
+pub fn judge_with_cold(sc: &Scenario, obs: &[(u32, Obs)], cold: &[Option<Obs>]) -> Judged {
     let mut j = Judged { violations: vec![], outcomes: vec![], distinguishing: vec![], secure_groups: 0, allowed_groups: 0 };
     // which (answer content) / (dnskey responses content) were returned Secure earlier in this history
-    let mut secure_answer_contents: Vec<u64> = vec![];
+    // (answer content, world) of earlier validate steps that returned a Secure record
+    let mut secure_answer_contents: Vec<(u64, usize)> = vec![];
     let mut secure_key_contents: Vec<u64> = vec![];
     let mut vi = 0;
     for st in &sc.steps {
         let Step::Validate { world, .. } = st else { continue };
         let (now, o) = &obs[vi];
+        let cold_recs: Option<Vec<&RecObs>> = match cold.get(vi) {
+            Some(Some(Obs::Answers(v))) => Some(v.iter().collect()),
+            Some(Some(_)) => Some(vec![]),
+            _ => None,
+        };
+        let cold_secure = |r: &RecObs| cold_recs.as_ref().map(|c| c.iter().any(|x| x.proof == 3 && x.owner == r.owner && x.rtype == r.rtype && x.class == r.class && x.rdata == r.rdata));
+        if cold_recs.is_some() {
+            j.outcomes.push("differential:warm-step-compared-with-fresh-handle".into());
+        }
         vi += 1;
         let table = &sc.worlds[*world];
         let verdicts: Vec<GroupVerdict> = refpred::evaluate(table, &sc.anchors, &sc.query, *now).unwrap_or_default();
@@ -322,6 +334,9 @@ pub fn judge(sc: &Scenario, obs: &[(u32, Obs)]) -> Judged {
                         if verdicts.iter().any(|v| v.allowed && v.owner == r.owner && v.class == r.class && v.rtype == r.rtype) {
                             j.outcomes.push("obs:valid-rrsig-and-key-present-but-record-not-secure(not-judged)".into());
                         }
+                        if cold_secure(r) == Some(true) {
+                            j.outcomes.push("obs:fresh-handle-secure-but-warm-handle-not(not-judged)".into());
+                        }
                         continue;
                     }
                     any_secure = true;
@@ -329,8 +344,27 @@ pub fn judge(sc: &Scenario, obs: &[(u32, Obs)]) -> Judged {
                     // per record: the RRset (same owner, CLASS and type) this very record is a
                     // member of; a record of another class, or with RDATA the upstream never
                     // served, belongs to no RRset the signature could speak for
-                    let v = verdicts.iter().find(|v| v.owner == r.owner && v.class == r.class && v.rtype == r.rtype && v.members.iter().any(|m| m.eq_ignore_ascii_case(&r.rdata)));
-                    let scene = if secure_answer_contents.contains(&a_content) {
+                    let pick = |vs: &[GroupVerdict]| vs.iter().find(|v| v.owner == r.owner && v.class == r.class && v.rtype == r.rtype && v.members.iter().any(|m| m.eq_ignore_ascii_case(&r.rdata))).cloned();
+                    let mut v = pick(&verdicts);
+                    let mut rests_on_earlier_keys = false;
+                    // A cached verdict speaks for the keys it was established with: when the very same
+                    // answer content (records and RRSIGs) was returned Secure earlier in this history,
+                    // the (RRSIG, DNSKEY) pair may be the one presented THEN - judged at the time of
+                    // THIS validate (windows of both RRSIGs, remaining lifetime). The DNSKEY response
+                    // having changed in between does not make the cached verdict wrong.
+                    if !v.as_ref().is_some_and(|v| v.allowed) {
+                        for (_, w) in secure_answer_contents.iter().filter(|(c, w)| *c == a_content && *w != *world) {
+                            let earlier = refpred::evaluate(&sc.worlds[*w], &sc.anchors, &sc.query, *now).unwrap_or_default();
+                            if let Some(e) = pick(&earlier).filter(|e| e.allowed) {
+                                j.outcomes.push("obs:cached-verdict-rests-on-keys-presented-earlier(dnskey-response-changed-since)".into());
+                                v = Some(e);
+                                rests_on_earlier_keys = true;
+                                break;
+                            }
+                        }
+                    }
+                    let v = v.as_ref();
+                    let scene = if secure_answer_contents.iter().any(|(c, _)| *c == a_content) {
                         "cached"
                     } else if keys_seen_before {
                         "cached-keys"
@@ -342,7 +376,20 @@ pub fn judge(sc: &Scenario, obs: &[(u32, Obs)]) -> Judged {
                             format!("secure-record-not-in-response:{scene}"),
                             format!("record {} class {} type {} returned Secure but the upstream answer holds no such record (owner, class, type, RDATA)", vref::wire::name_to_string(&r.owner), r.class, r.rtype),
                         )),
-                        Some(v) if v.unknown => j.outcomes.push("obs:reference-undecided".into()),
+                        Some(v) if v.unknown => {
+                            j.outcomes.push("obs:reference-undecided".into());
+                            // differential clause: where the reference cannot decide, a Secure verdict
+                            // that only a handle with a history gives is a verdict from the cache alone
+                            if cold_secure(r) == Some(false) {
+                                j.violations.push((
+                                    format!("secure-only-on-a-warm-handle:reference-undecided:{scene}"),
+                                    format!(
+                                        "{} class {} type {} returned Secure at now={} by a handle with a history, while a fresh handle given the same responses at the same time does not return it Secure (and the reference cannot decide)",
+                                        vref::wire::name_to_string(&r.owner), r.class, r.rtype, now
+                                    ),
+                                ));
+                            }
+                        }
                         Some(v) if !v.allowed => j.violations.push((
                             format!("secure-disallowed:{}:{scene}", v.why),
                             format!(
@@ -351,6 +398,12 @@ pub fn judge(sc: &Scenario, obs: &[(u32, Obs)]) -> Judged {
                             ),
                         )),
                         Some(v) => {
+                            if cold_secure(r) == Some(false) {
+                                j.outcomes.push(
+                                    if rests_on_earlier_keys { "obs:warm-handle-secure-fresh-handle-not:verdict-rests-on-earlier-keys(not-judged)" } else { "obs:warm-handle-secure-fresh-handle-not:reference-allows-with-the-keys-presented-now(not-judged)" }
+                                        .into(),
+                                );
+                            }
                             if v.passing_signer_not_enclosing {
                                 j.outcomes.push("obs:secure-with-signer-not-enclosing-owner(judged-under-C07)".into());
                             }
@@ -371,7 +424,7 @@ pub fn judge(sc: &Scenario, obs: &[(u32, Obs)]) -> Judged {
                     }
                 }
                 if any_secure {
-                    secure_answer_contents.push(a_content);
+                    secure_answer_contents.push((a_content, *world));
                 }
                 classes.sort();
                 classes.dedup();
@@ -382,12 +435,81 @@ pub fn judge(sc: &Scenario, obs: &[(u32, Obs)]) -> Judged {
     j
 }
 
+thread_local! {
+    static COLD: std::cell::RefCell<std::collections::HashMap<(u64, u64), Obs>> = std::cell::RefCell::new(std::collections::HashMap::new());
+}
+
+/// For every validate step but the first of a scenario with a history: the observation of a fresh
+/// handle (same configuration, anchors, query) for the same world at the same virtual time.
+/// Memoised per thread by (world bytes, time, configuration, anchors, query).
+fn cold_side(sc: &Scenario, rt: &tokio::runtime::Runtime) -> Vec<Option<Obs>> {
+    let n = sc.steps.iter().filter(|s| matches!(s, Step::Validate { .. })).count();
+    if n < 2 {
+        return vec![];
+    }
+    let mut out = vec![];
+    let mut t = sc.t0;
+    let mut first = true;
+    for st in &sc.steps {
+        match st {
+            Step::Advance(s) => t += s,
+            Step::JumpTo(s) => t = t.max(sc.t0 + s),
+            Step::Validate { world, .. } => {
+                if first {
+                    first = false;
+                    out.push(None);
+                    continue;
+                }
+                let mut bytes: Vec<u8> = vec![];
+                for ((n, ty), b) in sc.worlds[*world].iter() {
+                    bytes.extend_from_slice(n.as_bytes());
+                    bytes.extend_from_slice(&ty.to_be_bytes());
+                    bytes.extend_from_slice(&(b.len() as u32).to_be_bytes());
+                    bytes.extend_from_slice(b);
+                }
+                let ctx = format!("{t}|{}|{:?}|{:?}", sc.cfg.tag(), sc.anchors, sc.query);
+                let key = (fnv64(&bytes), fnv64(ctx.as_bytes()) ^ (bytes.len() as u64).rotate_left(40));
+                let hit = COLD.with(|c| c.borrow().get(&key).cloned());
+                let o = match hit {
+                    Some(o) => o,
+                    None => {
+                        let fresh = Scenario {
+                            cfg: sc.cfg.clone(),
+                            anchors: sc.anchors.clone(),
+                            query: sc.query.clone(),
+                            t0: t,
+                            worlds: vec![sc.worlds[*world].clone()],
+                            steps: vec![Step::Validate { world: 0, clone: false }],
+                            desc: String::new(),
+                            family: "cold",
+                        };
+                        // (not counted as an evaluation: the memo is per thread, the number of
+                        // fresh-handle runs depends on the schedule)
+                        let o = execute(&fresh, rt).pop().map(|x| x.1).unwrap_or(Obs::Error("no-observation".into()));
+                        COLD.with(|c| {
+                            let mut c = c.borrow_mut();
+                            if c.len() > 200_000 {
+                                c.clear();
+                            }
+                            c.insert(key, o.clone());
+                        });
+                        o
+                    }
+                };
+                out.push(Some(o));
+            }
+        }
+    }
+    out
+}
+
 /// Execute + judge + report into `l`. Violating scenarios are executed a second time and must give
 /// identical observations (else the violation is reported as nondeterminism, exit 2 upstream).
 pub fn run(sc: &Scenario, rt: &tokio::runtime::Runtime, l: &mut Local, nondeterminism: &std::sync::atomic::AtomicBool) -> Judged {
     let obs = execute(sc, rt);
-    let j = judge(sc, &obs);
     l.evals_add(obs.len() as u64);
+    let cold = cold_side(sc, rt);
+    let j = judge_with_cold(sc, &obs, &cold);
     for o in &j.outcomes {
         if o.starts_with("obs:") {
             l.outcome_sample(o, || json!(sc.desc));
